@@ -81,7 +81,6 @@ def canon(netlist, identifiers=False, all_properties=False):
                           'width': len(p.pins), 'array': bool(p.is_array)}, **ident(p))
                 if all_properties:
                     P['properties'] = _props(p)
-                    P['lower'] = p.lower_index
                 D['ports'].append(P)
             for c in d.children:
                 I = dict({'ref': _ref(c.reference), 'properties': _props(c)}, **ident(c))
@@ -491,3 +490,92 @@ class time_limit:
         signal.setitimer(signal.ITIMER_REAL, 0)
         signal.signal(signal.SIGALRM, self._old)
         return False
+
+
+# ------------------------------------------------------------------------------------------------
+# independent elaboration of an EDIF document (the meaning of the constructs, written without
+# looking at how spydrnet's reader resolves things): document -> canonical structure in the
+# shape of canon(identifiers=True)
+# ------------------------------------------------------------------------------------------------
+import re as _re
+
+_BIT_IDENT = _re.compile(r'^(.*)_(\d+)_$', _re.S)
+_BIT_NAME = _re.compile(r'^(.*)\[(\d+)\]$', _re.S)
+_DIR = {'input': 'in', 'output': 'out', 'inout': 'inout'}
+
+
+def _dn(nm):
+    ident, orig = nm
+    return orig if orig is not None else ident
+
+
+def elab_doc(doc):
+    summ = doc_summary(doc)
+    out = {'name': _dn(summ['name']), 'ident': summ['name'][0], 'libraries': {},
+           'order': {'libraries': [_dn(L['name']) for L in summ['libraries']]}}
+    libs = {}
+    for L in summ['libraries']:
+        libs[L['name'][0].lower()] = L
+    for L in summ['libraries']:
+        EL = {'cells': {}, 'order': [_dn(c['name']) for c in L['cells']], 'ident': L['name'][0]}
+        _put(out['libraries'], _dn(L['name']), EL)
+        for c in L['cells']:
+            EC = {'ports': [], 'instances': {}, 'nets': {}, 'inst_order': [_dn(x['name']) for x in c['instances']],
+                  'net_order': [], 'ident': c['name'][0]}
+            _put(EL['cells'], _dn(c['name']), EC)
+            ports = {}
+            for p in c['ports']:
+                ports[p['name'][0].lower()] = p
+                EC['ports'].append({'name': _dn(p['name']), 'ident': p['name'][0], 'direction': _DIR.get(p['direction'], 'undefined'),
+                                    'width': p['width'], 'array': p['array']})
+            insts = {}
+            for x in c['instances']:
+                insts[x['name'][0].lower()] = x
+                TL = libs[x['library'].lower()] if x['library'] is not None else L
+                tc = next(d for d in TL['cells'] if d['name'][0].lower() == x['cell'].lower())
+                x['_target'] = tc
+                props = []
+                for pr in x['properties']:
+                    kind, v = pr['value']
+                    if kind == 'int':
+                        v = int(v)
+                    elif kind == 'bool':
+                        v = (v == 'true')
+                    props.append({'identifier': pr['name'][0], 'original': pr['name'][1], 'value': [kind, v]})
+                _put(EC['instances'], _dn(x['name']), {'ident': x['name'][0], 'ref': [_dn(TL['name']), _dn(tc['name'])], 'properties': props})
+            buses = {}
+            for n in c['nets']:
+                pins = []
+                for pn, idx, inst in n['refs']:
+                    if inst is None:
+                        pins.append(['port', _dn(ports[pn.lower()]['name']), idx or 0])
+                    else:
+                        x = insts[inst.lower()]
+                        tp = next(p for p in x['_target']['ports'] if p['name'][0].lower() == pn.lower())
+                        pins.append(['inst', _dn(x['name']), _dn(tp['name']), idx or 0])
+                ident, orig = n['name']
+                mi = _BIT_IDENT.match(ident)
+                mn = _BIT_NAME.match(orig) if orig is not None else None
+                if mi and mn:
+                    key = mn.group(1)
+                    if key not in buses:
+                        buses[key] = {'ident': mi.group(1), 'bits': {}}
+                        EC['net_order'].append(key)
+                    buses[key]['bits'].setdefault(int(mn.group(2)), []).extend(pins)
+                else:
+                    nm = _dn(n['name'])
+                    EC['net_order'].append(nm)
+                    _put(EC['nets'], nm, {'ident': ident, 'width': 1, 'lower': 0, 'array': False, 'bits': [pins]})
+            for key, b in buses.items():
+                lo, hi = min(b['bits']), max(b['bits'])
+                _put(EC['nets'], key, {'ident': b['ident'], 'width': hi - lo + 1, 'lower': lo, 'array': True,
+                                       'bits': [b['bits'].get(i, []) for i in range(lo, hi + 1)]})
+    d = summ['design']
+    if d is None:
+        out['top'] = None
+    else:
+        TL = libs.get((d['library'] or '').lower())
+        tc = next((x for x in TL['cells'] if x['name'][0].lower() == d['cell'].lower()), None) if TL else None
+        out['top'] = {'name': _dn(d['name']), 'ident': d['name'][0],
+                      'ref': [_dn(TL['name']) if TL else None, _dn(tc['name']) if tc else None]}
+    return out
